@@ -3,6 +3,7 @@
     and in the prelude, regenerated on every run (coq/gen/Clir.v).  The semantics of the IR instructions is the model
     theories/ClirSem.v; that Cranelift's code generator implements it is trusted and exercised by the correspondence. *)
 From Coq Require Import ZArith String List.
+From RbpfV Require Import Mem Stack Helpers InterpDefs Isa MemLemmas ClAluProofs ClJmpProofs ClStep.
 From RbpfV Require Import MachInt Ebpf ClirSem ClirProofs ClMemProofs.
 From RbpfV.gen Require Import Clir ClMem.
 Open Scope Z_scope.
@@ -40,6 +41,17 @@ Proof. exact cl_mem_arms. Qed.
 
 (** non-vacuity: with a 32-byte packet at 0x1000, no metadata buffer and the stack at 0x8000, an 8-byte access at the last
     8 bytes passes, one byte further traps, and so does an access wrapping the address space *)
+(** as a property of the compiled step (ClStep.cl_exec: the regenerated memory arm behind the regenerated bounds check, over
+    the regions of the regenerated prelude): a load, store or atomic add either completes having made its access -- the ISA's
+    width at the ISA's address -- entirely inside the stack, the packet (when present) or the metadata buffer (when present)
+    and without wrapping, or traps (Err ETrap) before touching memory, exactly when the access is not of that kind *)
+Theorem C11_compiled_step_safe : forall E, env_ok E -> forall i reg next fidx stacks m,
+  wf_insn i -> ArmBase.regs_ok reg -> In (opc i) cl_mem_ops ->
+  let a := gen_cl_mem (opc i) i (rd reg (dst i)) (rd reg (src i)) (cl_p0 E) in
+  (exists st, cl_exec E i reg next fidx stacks m = Ok st /\ access_allowed (clV E) ((a_base a + a_off a) mod 2 ^ 64) (a_bytes a))
+  \/ (cl_exec E i reg next fidx stacks m = Err ETrap /\ ~ access_allowed (clV E) ((a_base a + a_off a) mod 2 ^ 64) (a_bytes a)).
+Proof. exact cl_exec_mem_safe. Qed.
+
 Example C11_example :
   let V := gen_prelude_vars 0x1000 32 0 0 0x8000 512 in
   gen_bounds_check V 8 0x1000 24 = true /\ gen_bounds_check V 8 0x1000 25 = false /\
@@ -51,3 +63,4 @@ Print Assumptions C11_bounds_check.
 Print Assumptions C11_regions.
 Print Assumptions C11_check_precedes_access.
 Print Assumptions C11_checked_access_is_the_isa_access.
+Print Assumptions C11_compiled_step_safe.
